@@ -108,6 +108,28 @@ theorem Presents.fasta_sniffed (pre : List Bytes) (recs : List (Bytes × List By
     Presents (emit (pre ++ faPres recs)) (recs.map recOf) :=
   Presents.fasta pre recs hpre h62 hne hcn hfirst (C04_fasta_sniffed pre recs hpre hlen hne)
 
+/-- `Presents.clu` without the sniffing side condition: the title line decides -/
+theorem Presents.clu_sniffed (title : Bytes) (junk : List Bytes) (extra : Nat → List Bytes × Nat) (k : Nat) (rs : List RowC)
+    (hj : ∀ l ∈ junk, CluJunk l) (hx : ∀ b, ∀ l ∈ (extra b).1, BlankStart l)
+    (hk : ∀ r ∈ rs, r.2.length = k + 1) (hn : ∀ r ∈ rs, NmOK' r.1) (hne : rs ≠ [])
+    (hcn : ∀ l ∈ title :: (junk ++ cluPres extra (k + 1) 0 rs), ∀ b ∈ l, isCntrl b = false)
+    (hfirst : title.length ≠ 1) (h0 : fastaHint title = 0) (ht : countHints cluHints title ≠ 0) :
+    Presents (emit (title :: (junk ++ cluPres extra (k + 1) 0 rs))) (rs.map recOf) :=
+  Presents.clu title junk extra k rs hj hx hk hn hne hcn hfirst (C04_clu_sniffed title _ h0 ht)
+
+/-- `Presents.msf` without the sniffing side condition when the first header line is an MSF header line without a Clustal signature (as in
+every file GCG tools and kalign write: `!!AA_MULTIPLE_ALIGNMENT`, `PileUp … MSF:`): rows named CLUSTAL further down do not matter -/
+theorem Presents.msf_sniffed (h1 : HdrLine) (hdr : List HdrLine) (sep : Bytes) (junk : List Bytes) (extra : Nat → List Bytes × Nat) (k : Nat)
+    (rs : List RowC) (hv : ∀ x ∈ h1 :: hdr, x.Valid) (hsep : hasSub (ascii "//") sep = true)
+    (hj : ∀ l ∈ junk, CluJunk l) (hx : ∀ b, ∀ l ∈ (extra b).1, BlankStart l)
+    (hk : ∀ r ∈ rs, r.2.length = k) (hnames : hdrNames (h1 :: hdr) = rs.map (·.1)) (hne : rs ≠ [])
+    (hcn : ∀ l ∈ (h1 :: hdr).map (·.1) ++ sep :: (junk ++ msfPres extra k 0 rs), ∀ b ∈ l, isCntrl b = false)
+    (hfirst : ∀ l ls, (h1 :: hdr).map (·.1) ++ sep :: (junk ++ msfPres extra k 0 rs) = l :: ls → l.length ≠ 1)
+    (h0 : fastaHint h1.1 = 0) (hc : countHints cluHints h1.1 = 0) (hm : countHints msfHints h1.1 ≠ 0) :
+    Presents (emit ((h1 :: hdr).map (·.1) ++ sep :: (junk ++ msfPres extra k 0 rs))) (rs.map recOf) :=
+  Presents.msf (h1 :: hdr) sep junk extra k rs hv hsep hj hx hk hnames hne hcn hfirst
+    (by simp only [map_cons, cons_append]; exact C04_msf_sniffed h1.1 _ h0 hc hm)
+
 /-- non-vacuity: a described FASTA file with a leading blank line meets the premises -/
 example : detectFormat ([ascii ""] ++ faPres [(ascii "s1 from a CLUSTAL W run  MSF: 3", [ascii "CLUSTAL W", ascii "ACGT"])]) = 1 :=
   C04_fasta_sniffed _ _ (by intro l hl; simp at hl; subst hl; exact ⟨by decide, by decide⟩) (by decide) (by simp)
